@@ -1,0 +1,39 @@
+//go:build verif
+
+// Copyright JAMF Software, LLC
+
+package replication
+
+import (
+	"time"
+
+	"github.com/jamf/regatta/storage"
+	"github.com/jamf/regatta/storage/kv"
+	"github.com/prometheus/client_golang/prometheus"
+	"go.uber.org/zap"
+)
+
+// Re-exports for the verification harness (build tag verif). No logic.
+
+// VerifWorker is the replication worker of one table as the Manager creates it (no leader connection: the harness
+// looks at the lease routine only).
+type VerifWorker struct{ w *worker }
+
+func VerifNewWorker(e *storage.Engine, table string, leaseInterval, pollInterval time.Duration) VerifWorker {
+	f := &workerFactory{
+		engine:            e,
+		store:             &kv.MapStore{},
+		log:               zap.NewNop().Sugar(),
+		logTimeout:        time.Second,
+		reconcileInterval: time.Second,
+		pollInterval:      pollInterval,
+		leaseInterval:     leaseInterval,
+	}
+	f.metrics.replicationIndex = prometheus.NewGaugeVec(prometheus.GaugeOpts{Name: "verif_replication_index"}, []string{"role", "table"})
+	f.metrics.replicationLeased = prometheus.NewGaugeVec(prometheus.GaugeOpts{Name: "verif_replication_leased"}, []string{"table"})
+	return VerifWorker{f.create(table)}
+}
+
+func (v VerifWorker) Start()       { v.w.Start() }
+func (v VerifWorker) Close()       { v.w.Close() }
+func (v VerifWorker) Leased() bool { return v.w.leased.Load() }
